@@ -59,13 +59,16 @@ def run_replay_with_crash_isolation(exe, args, outdir, res, what, nshards=16):
             if merged is None:
                 merged = summ
                 continue
-            for k in ("cases", "evaluations", "nontrivial", "panics", "value_checks", "leak_checks"):
-                merged[k] = merged.get(k, 0) + summ.get(k, 0)
-            for k, v in summ["per_ep"].items():
+            for k in ("cases", "evaluations", "nontrivial", "panics", "value_checks", "leak_checks", "histories", "steps"):
+                if k in merged or k in summ:
+                    merged[k] = merged.get(k, 0) + summ.get(k, 0)
+            for k, v in summ.get("per_op", {}).items():
+                merged["per_op"][k] = merged["per_op"].get(k, 0) + v
+            for k, v in summ.get("per_ep", {}).items():
                 m = merged["per_ep"].setdefault(k, {"ok": 0, "err": 0})
                 m["ok"] += v["ok"]
                 m["err"] += v["err"]
-            for k, v in summ["per_kind"].items():
+            for k, v in summ.get("per_kind", {}).items():
                 merged["per_kind"][k] = merged["per_kind"].get(k, 0) + v
             merged["mismatches"] += summ["mismatches"]
             merged["samples"] += summ["samples"]
@@ -303,4 +306,64 @@ def check_C09(tier, seed):
                             "table (quick: stride 53; thorough: all 1,114,112 code points); TLC decodes each literal with the payload layer of JsonText and compares text, Ok/Err and borrowed-ness")
     generic_record_validate("C09", res, "st-record", ["--seed", seed, "--n", 6000 if tier == QUICK else 400000, "--mode", "sweep"], "Trace_Strings", {}, "sweep")
     generic_record_validate("C09", res, "st-record", ["--seed", seed, "--n", 53 if tier == QUICK else 1, "--mode", "codepoints"], "Trace_Strings", {}, "codepoints")
+    return res.finish()
+
+
+def dom_behaviours(tier):
+    d = wdir("beh")
+    k = 3 if tier == QUICK else 3
+    path = os.path.join(d, "dom_%d.ndjson" % k)
+    stats_p = path + ".stats"
+    src = [os.path.join(vlib.TLA, f) for f in ("Dom.tla", "MC_Dom.tla", "MC_Dom.cfg")]
+    stamp = "".join(str(os.path.getmtime(f)) for f in src)
+    if os.path.exists(path) and os.path.exists(stats_p):
+        st = json.load(open(stats_p))
+        if st.get("stamp") == stamp:
+            return path, st
+    st = tlc_mc("MC_Dom", {"MaxOps": k, "EmitOn": "TRUE"}, emit_path=path, tag="MC_Dom_%d" % k)
+    st["stamp"] = stamp
+    st["maxops"] = k
+    st.pop("log_tail", None)
+    json.dump(st, open(stats_p, "w"))
+    return path, st
+
+
+def dom_replay(prop, tier, seed, res, classes):
+    beh, st = dom_behaviours(tier)
+    exe = build_harness()
+    out = fresh(prop, "dom")
+    summ = run_replay_with_crash_isolation(exe, ["dom-replay", "--beh", beh, "--seed", seed, "--out", out], out, res, "dom-replay")
+    for m in summ["mismatches"]:
+        if m.get("class") in classes:
+            res.add_mismatch(m)
+    c = res.coverage
+    c["states"] += st["distinct"]
+    c["transitions"] += st["states"]
+    c["evaluations"] += summ["steps"]
+    c["distinct_nontrivial"] += summ["nontrivial"]
+    c["traces_validated_against_impl"] += summ["histories"]
+    c["samples"] += summ["samples"][:2]
+    c.setdefault("replay", {})["dom"] = {k: summ[k] for k in ("histories", "steps", "per_op")}
+    c.setdefault("tlc", {})["MC_Dom"] = st
+    return summ
+
+
+def check_C15(tier, seed):
+    res = Result("C15", tier, seed, "model_checking")
+    res.coverage["rule"] = ("TLC explores every history of length 3 over {parse (2 documents), new, build, clone of any subtree, drop, take, 12 array operations, 6 object operations, "
+                            "append} on 3 slots, checking that the copy-on-write representation denotes the reference model of vectors and maps in every slot (Refines); every history is "
+                            "replayed on real Values (three ways of reaching &mut), comparing results, rejected calls and the full contents of every slot after every step. "
+                            "non-trivial = histories containing at least one mutation")
+    dom_replay("C15", tier, seed, res, ("dom", "crash", "panic"))
+    res.coverage["exhaustive"] = True
+    return res.finish()
+
+
+def check_C16(tier, seed):
+    res = Result("C16", tier, seed, "model_checking")
+    res.coverage["rule"] = ("same histories: TLC checks RcExact (every count = number of live handles), NoLeakNoDangling (alive <=> referenced, released exactly once), AllDroppedEmpty; "
+                            "the replay compares the number of live arenas after every step (hook: released-arena counter) and requires the heap to return exactly to its previous level "
+                            "after every history; survivors are read in full after their document is dropped. non-trivial = histories containing at least one mutation")
+    dom_replay("C16", tier, seed, res, ("arena", "leak", "crash"))
+    res.coverage["exhaustive"] = True
     return res.finish()
